@@ -77,8 +77,60 @@ def o_rejected(text, what):
     return None
 
 
+def param_array_case(rng, mx):
+    """an array with two or more template parameters among literal elements"""
+    ty = rng.choice(["int", "float", "complex"])
+    nr, nc = rng.randrange(1, mx + 1), rng.randrange(2, mx + 1)
+    n = nr * nc
+    npar = rng.randrange(2, min(n, 5) + 1)
+    pos = sorted(rng.sample(range(n), npar))
+    names = rng.sample(["a", "b", "c", "p1", "p2", "th", "x_1"], npar)
+    cells = []
+    for k in range(n):
+        if k in pos:
+            cells.append(("par", names[pos.index(k)]))
+        else:
+            v = rng.randrange(0, 50)
+            cells.append(("num", v))
+
+    def lit(c):
+        if c[0] == "par":
+            return "{%s}" % c[1]
+        return {"int": "%d", "float": "%d.5", "complex": "%d+1j"}[ty] % c[1]
+    shape = "[%d, %d]" % (nr, nc) if rng.random() < 0.5 else ""
+    text = head() + "%s array A%s =\n" % (ty, shape) + "".join(
+        "    " + ", ".join(lit(c) for c in cells[r * nc:(r + 1) * nc]) + "\n" for r in range(nr))
+    want = [["par", c[1]] if c[0] == "par" else
+            ["num", {"int": c[1], "float": c[1] + 0.5, "complex": [c[1], 1]}[ty]] for c in cells]
+    return text, [nr, nc], want
+
+
+def check_param_array(text, shape, want):
+    import sympy as sym
+    r = core.impl_loads(text)
+    if r[0] != "ok":
+        return "array with parameters is refused: %r" % (r[1],)
+    got = r[1].variables.get("A")
+    if not isinstance(got, np.ndarray) or list(got.shape) != list(shape):
+        return "array has shape %s, written %s" % (getattr(got, "shape", None), shape)
+    flat = list(got.reshape(-1))
+    for k, (g, w) in enumerate(zip(flat, want)):
+        if w[0] == "par":
+            if not (isinstance(g, sym.Symbol) and str(g) == w[1]):
+                return "element (%d, %d) is %r, written {%s}" % (k // shape[1], k % shape[1], g, w[1])
+        else:
+            wv = complex(*w[1]) if isinstance(w[1], list) else w[1]
+            if isinstance(g, sym.Basic) and not g.is_number:
+                return "element (%d, %d) is %r, written %r" % (k // shape[1], k % shape[1], g, wv)
+            if not canon.close(complex(g) if isinstance(wv, complex) else float(g), wv, 1e-12):
+                return "element (%d, %d) is %r, written %r" % (k // shape[1], k % shape[1], g, wv)
+    return None
+
+
 def replay(ctx, data):
     k = data.get("kind")
+    if k == "param_array":
+        return check_param_array(data["text"], data["shape"], data["want"])
     if k == "decls":
         items = [tuple(i) for i in data["items"]]
         return check_decls(items, data["vals"], data["text"])
@@ -108,7 +160,8 @@ def run(ctx):
                 "int/float/complex arrays up to 6x6 (quick) / 12x12 (thorough), with and without declared shape; "
                 "every element, dtype and shape is compared with the independent Python evaluation of the written "
                 "rows; every index k of every array is read through G(A[k]); ragged and mis-shaped variants of "
-                "every array must be rejected; model LOADS vs implementation on all of them; non-trivial = an "
+                "every array (including ones that keep the first row and the total size) must be rejected; arrays with 2-5 "
+                "template parameters among literal elements keep every element and parameter in the cell it was written in; model LOADS vs implementation on all of them; non-trivial = an "
                 "array with at least 2 rows and 2 columns or at least 3 declarations; distinct by text")
     n = ctx.n(300, 5000)
     mx = ctx.n(6, 12)
@@ -162,6 +215,13 @@ def run(ctx):
                     ragged = [list(r) for r in rows]
                     ragged[0].append(ragged[-1].pop())
                     variants.append(("ragged array (rows %s)" % [len(r) for r in ragged], ("arr", ty, name, None, ragged)))
+                if nr >= 3 and nc >= 2:
+                    # first row untouched, same total: one element moves from the last row to the second
+                    ragged3 = [list(r) for r in rows]
+                    ragged3[1].append(ragged3[-1].pop())
+                    variants.append(("ragged array (rows %s)" % [len(r) for r in ragged3], ("arr", ty, name, None, ragged3)))
+                    variants.append(("ragged array (rows %s) with matching declared shape" % [len(r) for r in ragged3],
+                                     ("arr", ty, name, [nr, nc], ragged3)))
                 ragged2 = [list(r) for r in rows]
                 ragged2[-1] = ragged2[-1] + [("int", "1")]
                 variants.append(("ragged array (rows %s)" % [len(r) for r in ragged2], ("arr", ty, name, None, ragged2)))
@@ -178,4 +238,14 @@ def run(ctx):
                 msg = o_rejected(t3, what)
                 if msg:
                     ctx.violation("rejection: " + msg, {"kind": "rejected", "text": t3, "what": what})
+    # arrays with several template parameters among their elements keep every element where it was written
+    for _ in range(ctx.n(150, 2000)):
+        text, shape, want = param_array_case(ctx.rng, ctx.n(4, 6))
+        ctx.count("array-with-parameters")
+        ctx.case(text, nontrivial=True)
+        texts.append(text)
+        msg = check_param_array(text, shape, want)
+        if msg:
+            ctx.violation("layout with parameters: " + msg,
+                          {"kind": "param_array", "text": text, "shape": shape, "want": want})
     common.loads_corr(ctx, texts, "LOADS(decl)")
